@@ -72,6 +72,9 @@ func (c *collector) withBuffer(fn func([]byte) error) error {
 type collectorID struct {
 	Remote  string
 	GroupID GroupID
+	// IsAsk and IsReply keep a reply apart from a tell or request by the same peer: the reply carries
+	// the group id chosen by the asker, which can coincide with one the peer chose for its own message.
+	IsAsk, IsReply bool
 }
 
 type fragLayer struct {
@@ -92,8 +95,8 @@ func newFragLayer() *fragLayer {
 	return fl
 }
 
-func (fl *fragLayer) handlePart(remote p2p.Addr, gid GroupID, partIndex, partCount uint16, totalSize uint32, body []byte, fn func([]byte) error) error {
-	cid := collectorID{Remote: remote.String(), GroupID: gid}
+func (fl *fragLayer) handlePart(remote p2p.Addr, gid GroupID, isAsk, isReply bool, partIndex, partCount uint16, totalSize uint32, body []byte, fn func([]byte) error) error {
+	cid := collectorID{Remote: remote.String(), GroupID: gid, IsAsk: isAsk, IsReply: isReply}
 	if partCount < 2 && !disableFastPath {
 		return fn(body)
 	}
